@@ -373,8 +373,13 @@ pub fn check_world(spec: &RichSpec, l: &mut Local) -> Result<(), String> {
                 .collect();
             let pool_idx = [r.p0, r.p1, r.pa][*which];
             let own_keys: Vec<Pubkey> = ent.slots.iter().filter(|(_, k, p)| *k == SlotKind::TickArray && *p == pool_idx).map(|(i, _, _)| ent.ix.accounts[*i].pubkey).collect();
-            for f in foreign {
-                let ix = with_supplemental(&ent.ix, *accounts_type, &[f]);
+            for (f, read_only) in foreign.into_iter().flat_map(|f| [(f, false), (f, true)]) {
+                let mut ix = with_supplemental(&ent.ix, *accounts_type, &[f]);
+                if read_only {
+                    // the flag is the caller's choice: a foreign array must be refused however it is flagged
+                    ix.accounts.last_mut().unwrap().is_writable = false;
+                    l.count("substituted/SupplementalTickArray(read-only)");
+                }
                 let mut wc = r.w.clone();
                 let o = wc.exec(&ix);
                 l.count("substituted/SupplementalTickArray");
@@ -383,7 +388,7 @@ pub fn check_world(spec: &RichSpec, l: &mut Local) -> Result<(), String> {
                 }
                 l.nontrivial(hash_of(&(ent.name, "supplemental", f, spec_h)));
                 if o.ok() {
-                    return Err(format!("{}: accepted a tick array of another pool as supplemental tick array (accounts type {accounts_type})", ent.name));
+                    return Err(format!("{}: accepted a tick array of another pool as {}supplemental tick array (accounts type {accounts_type})", ent.name, if read_only { "read-only " } else { "" }));
                 }
             }
             // positive control: one of the pool's own arrays repeated as a supplemental account changes nothing
